@@ -16,7 +16,7 @@ theorem admitSegs_cons (conv una cwnd now : U32) (s : Seg) (rest buf : List Seg)
     admitSegs conv una cwnd now (s :: rest) buf nxt c =
       if itimediff nxt (una + cwnd) ≥ 0 then ⟨s :: rest, buf, nxt, c⟩
       else admitSegs conv una cwnd now rest
-        (buf ++ [{ s with conv := conv, cmd := BitVec.ofNat 8 IKCP_CMD_PUSH, sn := nxt, resendts := now }])
+        (buf ++ [{ s with conv := conv, cmd := BitVec.ofNat 8 IKCP_CMD_PUSH, sn := nxt, ts := now, resendts := now }])
         (nxt + 1) (c + 1) := rfl
 
 /-- under the send invariant the window test is the unsigned comparison "in flight < cwnd" -/
@@ -51,12 +51,12 @@ theorem admitSegs_spec (conv una cwnd now wnd : U32) (hcw : cwnd.toNat ≤ wnd.t
       have hlt := (admit_guard h hcw).1 hg
       have hbv := (admit_guard_bv h hcw).1 hg
       have h' : SndOK una (nxt + 1) wnd
-          (buf ++ [{ s with conv := conv, cmd := BitVec.ofNat 8 IKCP_CMD_PUSH, sn := nxt, resendts := now }]) := by
+          (buf ++ [{ s with conv := conv, cmd := BitVec.ofNat 8 IKCP_CMD_PUSH, sn := nxt, ts := now, resendts := now }]) := by
         refine ⟨h.small, consec_append _ _ _ h.consec h.nxt_eq, ?_, ?_⟩
         · rw [h.nxt_eq]; simp only [List.length_append, List.length_cons, List.length_nil]; bv_omega
         · simp only [List.length_append, List.length_cons, List.length_nil]; omega
       obtain ⟨new, e1, e2, e3, e4, e5, e6⟩ := ih _ (nxt + 1) (c + 1) h'
-      refine ⟨{ s with conv := conv, cmd := BitVec.ofNat 8 IKCP_CMD_PUSH, sn := nxt, resendts := now } :: new,
+      refine ⟨{ s with conv := conv, cmd := BitVec.ofNat 8 IKCP_CMD_PUSH, sn := nxt, ts := now, resendts := now } :: new,
         ?_, ?_, ?_, ?_, ?_, ?_⟩
       · rw [e1]; simp
       · rw [e2]; simp
